@@ -132,6 +132,53 @@ theorem normalize_short (ops : List Op) :
 example : (normalize (iptw true) [⟨0, 0, false⟩, ⟨2, 1, false⟩, ⟨3, 2, false⟩, ⟨5, 3, false⟩, ⟨0, 4, false⟩, ⟨1, 5, false⟩,
     ⟨3, 6, false⟩, ⟨4, 7, false⟩, ⟨2, 8, false⟩]).length = 7 := by decide
 
+/-! ### Observers and the order of independent specification calls (round 4)
+
+`history_independent` already says that the canonical list -- which contains no reporting call and lists the
+specifications in slot order -- leads to the same state as the history.  The three statements below isolate the two
+facts a user relies on, for *every* class table (no side condition for the first two): a reporting / diagnostic /
+plotting call is invisible to everything that follows, and the order in which independent specification calls (different
+slots: `exposure_model` / `outcome_model`, or `add_covariate_model` with different labels) are made does not matter. -/
+
+/-- **observer_keeps_state** — a call of a method to which the table gives no slot, no fit and no register (`summary`,
+    `run_diagnostics`, `positivity`, `plot_*`, …) leaves the object exactly as it was, whether it raises or not. -/
+theorem observer_keeps_state (s : State) (o : Op) (h : observer C o = true) : next C s o = s :=
+  L11.observer_keeps_state s o h
+
+example : observer (crossfit) ⟨4, 0, false⟩ = true ∧ observer (iptw true) ⟨9, 0, false⟩ = true ∧
+    observer (iptw true) ⟨3, 0, false⟩ = false := by decide
+
+/-- **observers_erasable** — striking every reporting / diagnostic / plotting call out of a history changes neither the
+    state the history leads to nor, therefore, the outcome of any later call: observers interleaved anywhere (between
+    specification and fit, between two fits, after a fit) are invisible. -/
+theorem observers_erasable (ops : List Op) (s : State) :
+    run C s (ops.filter fun o => !observer C o) = run C s ops ∧
+    ∀ o, step C (run C s (ops.filter fun o => !observer C o)) o = step C (run C s ops) o := by
+  have := L11.observers_erasable (C := C) ops s
+  exact ⟨this, fun o => by rw [this]⟩
+
+example : ([⟨0, 0, false⟩, ⟨4, 1, false⟩, ⟨1, 2, false⟩, ⟨4, 3, false⟩, ⟨2, 4, false⟩, ⟨3, 5, false⟩, ⟨4, 6, false⟩] :
+    List Op).filter (fun o => !observer crossfit o) = [⟨0, 0, false⟩, ⟨1, 2, false⟩, ⟨2, 4, false⟩] := by decide
+
+/-- **spec_order_irrelevant** — specification calls of pairwise different slots lead to the same state in whatever
+    order they are made (class without registers); with `observers_erasable`: the state after a specification phase
+    depends on what was specified, not on the order of the calls or on the reports looked at in between. -/
+theorem spec_order_irrelevant (h : wf C = true) (hc : clean C = true) {l₁ l₂ : List Op} (p : l₁.Perm l₂)
+    (hs : ∀ o ∈ l₁, ((C.sig o.m).writes).isSome = true)
+    (hd : ∀ x ∈ l₁, ∀ y ∈ l₁, x ≠ y → (C.sig x.m).writes ≠ (C.sig y.m).writes) (s : State) :
+    run C s l₁ = run C s l₂ :=
+  L11.spec_order_irrelevant h hc p hs hd s
+
+/-- the labelled covariate models of `MonteCarloGFormula`, label 2 added before label 1, and the other models last -/
+example (s : State) :
+    run monteCarlo s [⟨4, 0, false⟩, ⟨3, 1, false⟩, ⟨1, 2, false⟩, ⟨0, 3, false⟩] =
+    run monteCarlo s [⟨0, 3, false⟩, ⟨1, 2, false⟩, ⟨3, 1, false⟩, ⟨4, 0, false⟩] :=
+  spec_order_irrelevant (by decide) (by decide) (List.reverse_perm _).symm (by decide) (by decide) s
+
+example : normalize monteCarlo [⟨4, 0, false⟩, ⟨3, 1, false⟩, ⟨1, 2, false⟩, ⟨0, 3, false⟩, ⟨5, 4, false⟩] =
+    [⟨0, 3, false⟩, ⟨1, 2, false⟩, ⟨3, 1, false⟩, ⟨4, 0, false⟩, ⟨5, 4, false⟩,
+     ⟨0, 3, false⟩, ⟨1, 2, false⟩, ⟨3, 1, false⟩, ⟨4, 0, false⟩] := by decide
+
 /-! ### The `calm` hypothesis is needed: what a never-reset register does
 
 No class table has a register any more (the six stale-state defects the registers stood for were repaired in zEpid and
